@@ -931,3 +931,26 @@ package uhppote
 //@   ensures zero:  sdtZero(e.SystemDate) ==> dt.abs == 0 && dt.ns == 0
 //@   ensures civil: !sdtZero(e.SystemDate) && 0 <= time.year(e.SystemDate.abs, e.SystemDate.loc) && time.year(e.SystemDate.abs, e.SystemDate.loc) <= 9999 &&
 //@                    time.exists(sdtCivil(e.SystemDate, e.SystemTime), time.Local) ==> sdtSame(dt, e.SystemDate, e.SystemTime)
+
+
+// the receive loop of the event listener (goroutine body): one buffer that can hold an over-length datagram,
+// one callback per datagram read without error
+//@ func (*ut0311).Listen$2
+//@   requires env: u != nil && c != nil
+//@   modifies sock.reads, sock.unguarded
+//@   loop 1
+//@     invariant buf: len(m) > 64 && fresh(m)
+
+
+// the reply collector of discovery (goroutine body of ut0311.Broadcast): every collected reply is held in a buffer
+// of its own, so a later datagram cannot change an earlier reply
+//@ func (*ut0311).Broadcast$1
+//@   requires env: u != nil && connection != nil
+//@   modifies replies
+//@   requires start: (forall k int :: 0 <= k && k < len(replies) ==> allocated(replies[k])) &&
+//@                   (forall j int, k int :: 0 <= j && j < k && k < len(replies) ==> !sameblock(replies[j], replies[k]))
+//@   modifies sock.reads, sock.unguarded
+//@   loop 1
+//@     invariant own:      fresh(replies) || sameblock(replies, old(replies)) || cap(replies) == 0
+//@     invariant known:    forall k int :: 0 <= k && k < len(replies) ==> allocated(replies[k])
+//@     invariant distinct: forall j int, k int :: 0 <= j && j < k && k < len(replies) ==> !sameblock(replies[j], replies[k])
